@@ -1,11 +1,15 @@
 def _extra(stats, cov):
-    return dict(programs=stats.get('full_plans_validated', 0), disagreements_checked=stats.get('gc_calls', 0) + stats.get('hb_calls', 0))
+    return dict(programs=stats.get('full_plans_validated', 0) + stats.get('logs_judged', 0),
+                disagreements_checked=stats.get('gc_calls', 0) + stats.get('hb_calls', 0))
 
 
 CONFIG = dict(
     level='proof',
-    streams=[dict(harness='c04', driver='c04', shrink_field='ops')],
-    rule='two kinds of cases. fn*: collectGarbage and insertHibernateBoot(d) called directly on a generated plan (fnwf: random '
+    streams=[dict(harness='c04', driver='c04', shrink_field='ops'),
+             # execution level: the real Pipeline.Run with recording hibernateable items, the call log judged by the
+             # extracted oracle of coq/theories/Plan/RunLifecycle.v (C04_run_lifecycle_sound)
+             dict(harness='c04run', driver='c04run', shrink_field='commits')],
+    rule='stream c04, two kinds of cases. fn*: collectGarbage and insertHibernateBoot(d) called directly on a generated plan (fnwf: random '
          'plans with a sound lifecycle, fndel: the same with deletes, fnarb: arbitrary action lists incl. empty item lists, '
          'negative ids, repeated items; d in 0..8, sometimes 9..38 or negative) and compared with the extracted models GC.v / '
          'Hibernate.v (deletes that follow one action compared as a set), the outputs judged by the extracted lifecycle checker '
@@ -14,27 +18,52 @@ CONFIG = dict(
          'prepareRunPlan(commits, d) on the reversed slice; every full plan validated by c04_ok. Graph generators as in C02: all '
          'DAGs on <=5 commits x all hash orders (one case per graph and distinct generatePlan output), thorough: connected 6-commit DAGs x every '
          '24th order, random histories to 14 / 40 commits. Non-trivial = a fork or merge and >=4 actions (fn*) / a commit with two '
-         'distinct parents (graph); distinct = distinct input fields.',
+         'distinct parents (graph); distinct = distinct input fields. '
+         'Stream c04run (execution level): the real hercules.NewPipeline(repo).Initialize/Run on a synthetic in-memory repository with '
+         'hibernation distance 0..4 and one or two recording leaf items that implement Hibernate/Boot/Dispose and fork by copy with a '
+         'fresh instance id per clone; the complete call log (root, Fork with the clone ids, Consume(commit), Merge(participants), '
+         'Hibernate, Boot, Dispose, Finalize) of every deployed item is judged by the extracted oracle run_okb (C04_run_lifecycle_sound); '
+         'Run panicking or returning an error is a property failure. Histories: ex1..4 = every parent assignment on <=4 commits '
+         '(thorough 5) x distances 0..2, octoplain = root + 3..7 (thorough 9) arms + octopus merge + tail x distances 1..4, octo = '
+         'harness/synth.GenOctopusShape (1-3 octopus merges of 3..7 parents per history, arms of different lengths so that the parent '
+         'branches have been idle for different times, chains after the merge, 1..3 roots, sometimes a second head or a two-parent merge '
+         'inside an arm; a third aimed at parents = distance+3 / +4, the boundary at which ONE boot action covers several branches), lin, '
+         'dag = random DAGs to 16 commits with 2-4 parent merges and several roots, hist = synth.GenHist shapes to 24 commits. '
+         'Non-trivial (c04run) = the log holds a Hibernate and a Merge call.',
     exhaustive_note='all DAGs on <=5 commits x all hash orders x distances 0..8 (cases de-duplicated by generatePlan output)',
     assumptions=['hibernation distance >= 0 in the theorems (prepareRunPlan calls insertHibernateBoot only for d > 0)',
                  'collectGarbage on branch ids < 0 depends on the unstable sort (an action can be emitted twice): outside the '
                  'domain of C04_gc (pre_ok requires ids >= rootBranchIndex) and not compared',
-                 'the plan of generatePlan is validated per plan (pre_okb), as in C02'],
+                 'the plan of generatePlan is validated per plan (pre_okb), as in C02',
+                 'c04run: the recording items never fail and fork by copy; what is judged is the call log the items receive (the plan Run '
+                 'executed is not looked at: prepareRunPlan is not deterministic across calls); deleting a branch from Run\'s map is not a '
+                 'call, so a disposed instance is one that receives no later call; the last-consumed-commit clause of a merge speaks about '
+                 'what each participant consumed itself'],
     trusted_base=['hand-written Gallina models coq/theories/Plan/GC.v and Hibernate.v of collectGarbage / insertHibernateBoot, '
                   'tied to the code by the replay of every harness case',
                   'the abstract executor coq/theories/Plan/Exec.v as the meaning of live / hibernated / disposed (hand-written '
-                  'from Pipeline.Run; Run itself is not executed by this check)'],
+                  'from Pipeline.Run; the plan-level theorems are about it, the stream c04run judges the real Run independently of it)',
+                  'the recording items of harness/cmd/c04run (hook-free: public hercules API, facts key "Pipeline.HibernationDistance" read back '
+                  'from Pipeline.HibernationDistance) and ocaml/c04run/driver.ml (splits the log by deployed item, computes single-headedness)'],
     level_text='proof for the garbage-collection and hibernation stages (all plans, all distances) over line-by-line Gallina '
-               'models tied to the Go functions by replay; the plan generator stage is validated per plan by a proved-sound checker',
+               'models tied to the Go functions by replay; the plan generator stage is validated per plan by a proved-sound checker; '
+               'the execution of the plan by Pipeline.Run is validated per run by a proved-sound oracle over the call log of recording items',
     level_note='Proved in Coq (no axioms), for all plans and all distances: C04_gc / C04_gc_any_order (collectGarbage model: sound lifecycle, '
                'erasing deletes gives the input, for every outcome of the unstable sort), C04_hib (insertHibernateBoot model: booted before the '
                'next use, never hibernated twice, never disposed while hibernated, nothing left hibernated, erasing gives the input), '
                'C04_checker_sound (the validator run on every full plan of the real planner implies the lifecycle, merge and master-branch '
-               'clauses). Modelled, not verified: the two Go functions (Gallina models GC.v / Hibernate.v tied to them by replay, zero '
-               'mismatches required) and Pipeline.Run (Exec.v is its hand-written abstraction). Not proved: that generatePlan always emits a '
+               'clauses), C04_run_lifecycle_sound / C04_run_booted_before_use (the oracle run on the call log of every real run implies: nothing '
+               'is consumed, forked, merged, finalized or hibernated again while hibernated; a Boot lies between a Hibernate and the next use; '
+               'instances are created once; Boot only of hibernated instances; merges join distinct instances that consumed the same commit '
+               'last; nothing hibernated at Finalize and at the end; with a single head the finalized instance has incorporated every commit) '
+               'and C04_run_lifecycle_complete (every log that satisfies the statement is accepted: the oracle is exact). '
+               'Modelled, not verified: the two Go functions (Gallina models GC.v / Hibernate.v tied to them by replay, zero '
+               'mismatches required) and Pipeline.Run (Exec.v is its hand-written abstraction; its real execution is validated per run by the c04run stream, not '
+               'proved: a defect of Run that needs a plan shape the generators do not produce would be missed). Not proved: that generatePlan always emits a '
                'plan satisfying pre_ok / c04_ok - validated per plan (exhaustive for <=5 commits x all hash orders x distances 0..8).',
     technique='machine-checked proof in Coq over Gallina models of collectGarbage/insertHibernateBoot + model/implementation '
-              'correspondence replay + Coq-verified lifecycle checker on the plans of the real planner',
+              'correspondence replay + Coq-verified lifecycle checker on the plans of the real planner + Coq-verified lifecycle oracle on '
+              'the call logs of the real Pipeline.Run',
     extra_coverage=_extra,
     search_seconds=60,
 )
